@@ -40,7 +40,8 @@ Qed.
 Theorem agrees_implies_prop_ok_lemma : forall c,
   agrees1 (serve_call (call_of c)) c = true -> prop_ok1 c = true.
 Proof.
-  intros c. unfold agrees1, prop_ok1. destruct (in_scope c); [|discriminate].
+  intros c Hag. unfold agrees1 in Hag. apply andb_true_iff in Hag. destruct Hag as [_ Hag]. revert Hag.
+  unfold prop_ok1. destruct (in_scope c); [|discriminate].
   destruct (serve_call (call_of c)) as [vs|byv|] eqn:E; destruct (oc_verdict c); try discriminate.
   - (* accepted *)
     intro H. apply andb_true_iff in H. destruct H as [Hv Hc].
